@@ -185,6 +185,9 @@ pub struct ModelCfg {
     /// this model sees every call made to the store (single client): the rule that a failed
     /// call's explicit timestamp never shows up in a later automatic one can be applied
     pub sees_all_calls: bool,
+    /// C12 only: refusals on keys that were pinned at u64::MAX by a neighbour of the same clock
+    /// shard are violations (elsewhere the store's choice of version is taken as given)
+    pub judge_collateral_pins: bool,
 }
 
 #[derive(Clone, Debug)]
@@ -201,6 +204,10 @@ pub struct Model {
     /// greatest wall-clock value any call has seen so far (the clock may jump backwards;
     /// the version clock legitimately remembers the greatest value it was given)
     pub now_hint: u64,
+    /// keys that were handed u64::MAX as an *automatic* version although nothing the key
+    /// itself ever carried was near the maximum: they are pinned without anybody having
+    /// asked for it (another key of the same clock shard pushed the shared clock there)
+    pub collateral_pins: std::collections::BTreeSet<Vec<u8>>,
 }
 
 #[derive(Clone, Debug)]
@@ -230,6 +237,7 @@ impl Model {
             auto_checked: 0,
             max_accepted: 0,
             rejected_future: Vec::new(),
+            collateral_pins: Default::default(),
             now_hint: 0,
         }
     }
@@ -300,6 +308,30 @@ impl Model {
         now0: u64,
         now1: u64,
     ) -> Result<(), Fail> {
+        // C12: an automatic write may be refused as older only on a key that was deliberately
+        // pinned at the maximum timestamp
+        if *res == Res::Err(ErrKind::OlderTimestamp) {
+            let auto_on = match call {
+                Call::Insert { key, ts: None, .. }
+                | Call::Delete { key, ts: None }
+                | Call::Cas { key, ts: None, .. }
+                | Call::Incr { key, ts: None, .. }
+                | Call::JsonPatch { key, ts: None, .. } => Some(key),
+                Call::UpdateTtl { key, .. } => Some(key),
+                _ => None,
+            };
+            if let Some(key) = auto_on {
+                if self.cfg.judge_collateral_pins && self.collateral_pins.contains(key.as_slice()) {
+                    return fail(
+                        "collateral-max-timestamp",
+                        format!(
+                            "{}: refused as older on a key nobody pinned: its previous automatic write was given the version u64::MAX because another key of the same version-clock shard carries a timestamp next to the maximum; every later automatic write, delete, increment, swap, patch or TTL change of this key is refused",
+                            call.brief()
+                        ),
+                    );
+                }
+            }
+        }
         // The visibility of a generation whose expiry lies inside the call interval is undecided.
         let mut last: Option<Fail> = None;
         let candidates: &[u64] = if now0 == now1 { &[now0] } else { &[now0, now1] };
@@ -360,6 +392,12 @@ impl Model {
                     call.brief(), self.now_hint, self.max_accepted
                 ),
             );
+        }
+        if ts == u64::MAX {
+            let own = prev.unwrap_or(0).max(self.floor.get(key).copied().unwrap_or(0));
+            if own < u64::MAX - 1 {
+                self.collateral_pins.insert(key.to_vec());
+            }
         }
         if let Some(floor) = self.floor.get(key) {
             if ts <= *floor && *floor != u64::MAX {
